@@ -7,7 +7,10 @@
      step t [k]                            k (default: all) instructions of thread t
      write | move | crash | take r | drop r | dropbegin r
      flush x roll       EFlush + the memtable thread runs to the end     (flushbegin: EFlush only)
-     compact ins | outs | roll hold        ECompact + the thread runs to the end   (compactbegin)
+     compact [@J] ins | outs | roll hold   ECompact on compaction thread J (default 0) + the thread
+                                           runs to the end   (compactbegin: ECompact only); the
+                                           thread's id for `step` / `pc` is 2 + 2J
+     move [@J]
      vpass ok           EVBegin + EVStep until the pass returns
      vbegin | vstep ok [k] | vcrash
      vkill j            EVBegin (if no pass is running), run the pass up to (excluding) the j-th
@@ -104,10 +107,22 @@ let parse_open rest =
   | [a; bb; c] -> EOpen (parse_pairs n_of_hex a, parse_pairs (fun v -> v = "1") bb, n_of_dec (String.trim c))
   | _ -> failwith "bad open"
 
+(* "@J rest" -> (J, rest); default thread 0 *)
+let split_thread rest =
+  let rest = String.trim rest in
+  if String.length rest > 0 && rest.[0] = '@' then
+    match String.index_opt rest ' ' with
+    | Some i -> (n_of_dec (String.sub rest 1 (i - 1)), String.sub rest (i + 1) (String.length rest - i - 1))
+    | None -> (n_of_dec (String.sub rest 1 (String.length rest - 1)), "")
+  else (N0, rest)
+let t_compact j = N.add (n_of_int 2) (N.mul (n_of_int 2) j)
+let t_reader r = N.add (n_of_int 3) (N.mul (n_of_int 2) r)
+
 let parse_compact rest =
+  let (j, rest) = split_thread rest in
   match String.split_on_char '|' rest with
   | [i; o; f] -> (match split ' ' f with
-                  | [r; h] -> ECompact (names i, names o, b r, b h)
+                  | [r; h] -> (j, ECompact (j, names i, names o, b r, b h))
                   | _ -> failwith "bad compact flags")
   | _ -> failwith "bad compact"
 
@@ -139,10 +154,10 @@ let () =
                        | [t; k] -> s := run_thread (n_of_dec t) (int_of_string k) !s; obs !s
                        | _ -> "BAD")
           | "write" -> s := step !s EWrite; "OK"
-          | "move" -> s := step !s EMove; s := run_thread (n_of_int 2) (-1) !s; obs !s
+          | "move" -> let (j, _) = split_thread rest in s := step !s (EMove j); s := run_thread (t_compact j) (-1) !s; obs !s
           | "crash" -> s := step !s ECrash; obs !s
-          | "take" -> let r = n_of_dec rest in s := step !s (ETake r); s := run_thread (N.add (n_of_int 3) r) (-1) !s; obs !s
-          | "drop" -> let r = n_of_dec rest in s := step !s (EDrop r); s := run_thread (N.add (n_of_int 3) r) (-1) !s; obs !s
+          | "take" -> let r = n_of_dec rest in s := step !s (ETake r); s := run_thread (t_reader r) (-1) !s; obs !s
+          | "drop" -> let r = n_of_dec rest in s := step !s (EDrop r); s := run_thread (t_reader r) (-1) !s; obs !s
           | "dropbegin" -> s := step !s (EDrop (n_of_dec rest)); obs !s
           | "flush" | "flushbegin" ->
               (match split ' ' rest with
@@ -150,8 +165,9 @@ let () =
                            if cmd = "flush" then s := run_thread (n_of_int 1) (-1) !s; obs !s
                | _ -> "BAD")
           | "compact" | "compactbegin" ->
-              s := step !s (parse_compact rest);
-              if cmd = "compact" then s := run_thread (n_of_int 2) (-1) !s; obs !s
+              let (j, ev) = parse_compact rest in
+              s := step !s ev;
+              if cmd = "compact" then s := run_thread (t_compact j) (-1) !s; obs !s
           | "vbegin" -> s := step !s EVBegin; obs !s
           | "vstep" -> (match split ' ' rest with
                         | [o] -> s := step !s (EVStep (b o)); obs !s
